@@ -11,15 +11,17 @@
 //!
 //! Tie: the bytes the binary writes to stdout == the bytes of `run` on the same inputs, file tree and
 //! options, BYTE FOR BYTE for every type. The parameters of the model are read off the real report
-//! and handed to the model: the order of the file records and of the function records of each file
-//! (two hash maps), floats / timestamp / git / digests (C13's and C03's subjects). They can only
-//! rearrange records or fill in those fields: any difference in coverage data, names, structure or
-//! exclusion is a byte difference.
+//! and handed to the model: the order of the FILE records (the result map is a hash map; the
+//! property allows that order to vary for unsorted types), floats / timestamp / git / digests (C13's
+//! and C03's subjects). They can only rearrange file records or fill in those fields: any difference
+//! in coverage data, names, structure, exclusion or in the order of the FUNCTION records of a file
+//! (name order since fix 73c9152, computed by the model) is a byte difference.
 //!
 //! Oracles, independent of the model (own decoders of the seven report formats, own aggregate, own
 //! marker rule): C02 – the decoded report is the aggregate of what each input individually contains,
-//! a rejected input contributes nothing, a second run with another argument order and thread count
-//! decodes to the same report (and lists the files in the same order when the type is sorted); C16 –
+//! a rejected input contributes nothing, a second run with another argument order, thread count and
+//! perturbation seed writes the same BYTES up to the order of the file records (the same bytes when
+//! the type is sorted); C16 –
 //! against the same run without `--excl-*` options, a line / branch entry is absent iff the marker
 //! rule says so on the file's text, and nothing else differs.
 #![allow(dead_code)]
@@ -343,12 +345,16 @@ fn extra_args(c: &Case, with_excl: bool) -> Vec<String> {
 }
 
 pub fn run_real(dir: &Path, c: &Case, args: &[String], threads: usize, with_excl: bool) -> RunOut {
+    run_real_p(dir, c, args, threads, with_excl, None)
+}
+
+pub fn run_real_p(dir: &Path, c: &Case, args: &[String], threads: usize, with_excl: bool, perturb: Option<u64>) -> RunOut {
     let cwd = if c.cwd == "." { dir.to_path_buf() } else { dir.join(&c.cwd) };
     run_grcov(&RunCfg {
         dir: &cwd,
         args: args.to_vec(),
         threads,
-        perturb: None,
+        perturb,
         fault: None,
         limit: Duration::from_secs(60),
         extra: extra_args(c, with_excl),
@@ -624,9 +630,8 @@ pub fn request(dir: &Path, c: &Case, args: &[String], with_excl: bool, params: &
     for r in &params.rec_order {
         s.push_str(&format!(" h{}", hex(r.as_bytes())));
     }
-    for (r, fs) in &params.fn_order {
-        s.push_str(&format!(" n{}={}", hex(r.as_bytes()), fs.iter().map(|f| hex(f.as_bytes())).collect::<Vec<_>>().join(",")));
-    }
+    // (no order of function records is handed to the model: since fix 73c9152 the writers list the
+    // functions of a file by name, and so does `RunAll.present`)
     for i in &params.items {
         s.push(' ');
         s.push_str(i);
@@ -912,6 +917,117 @@ fn obs_of_expected(ty: &str, m: &BTreeMap<String, CovResult>) -> Obs {
     m.iter().map(|(k, c)| (k.clone(), project(ty, c))).collect()
 }
 
+// ---- file records as opaque byte strings (the byte-level oracle of two runs) ---------------------
+
+/// what legitimately differs between two runs on the same inputs is masked: the cobertura
+/// `timestamp` attribute and the coveralls `source_digest` of a source file that cannot be read (a
+/// fresh random UUID per run; the digest of a readable file is its MD5 and stays)
+pub fn mask_timestamp(text: &str) -> String {
+    let mut out = String::new();
+    let mut rest = text;
+    while let Some(i) = rest.find("timestamp=\"") {
+        out.push_str(&rest[..i]);
+        out.push_str("timestamp=\"T\"");
+        let after = &rest[i + 11..];
+        let e = after.find('"').map(|e| e + 1).unwrap_or(after.len());
+        rest = &after[e..];
+    }
+    out.push_str(rest);
+    let pat = "\"source_digest\":\"";
+    let text = out;
+    let mut out = String::new();
+    let mut rest = text.as_str();
+    while let Some(i) = rest.find(pat) {
+        out.push_str(&rest[..i + pat.len()]);
+        let after = &rest[i + pat.len()..];
+        let e = after.find('"').unwrap_or(after.len());
+        let val = &after[..e];
+        out.push_str(if val.len() == 36 && val.matches('-').count() == 4 { "UUID" } else { val });
+        rest = &after[e..];
+    }
+    out.push_str(rest);
+    out
+}
+
+/// the report with its FILE records (as opaque byte strings) in sorted order; nothing inside a
+/// file record is touched
+pub fn canon(ty: &str, text: &str) -> Result<String, String> {
+    match ty {
+        "lcov" => {
+            let mut head = String::new();
+            let mut recs: Vec<String> = vec![];
+            let mut cur: Option<String> = None;
+            for l in text.split_inclusive('\n') {
+                if l.starts_with("SF:") {
+                    if cur.is_some() {
+                        return Err("SF inside a record".into());
+                    }
+                    cur = Some(l.to_string());
+                } else if let Some(c) = cur.as_mut() {
+                    c.push_str(l);
+                    if l.trim_end() == "end_of_record" {
+                        recs.push(cur.take().unwrap());
+                    }
+                } else {
+                    head.push_str(l);
+                }
+            }
+            if cur.is_some() {
+                return Err("unterminated record".into());
+            }
+            recs.sort();
+            Ok(head + &recs.concat())
+        }
+        "files" => {
+            let mut ls: Vec<&str> = text.split_inclusive('\n').collect();
+            ls.sort();
+            Ok(ls.concat())
+        }
+        "ade" => {
+            let mut groups: Vec<String> = vec![];
+            let mut cur = String::new();
+            for l in text.split_inclusive('\n') {
+                cur.push_str(l);
+                let v: Value = serde_json::from_str(l).map_err(|e| format!("not JSON: {}", e))?;
+                if v.get("is_file").is_some() {
+                    groups.push(std::mem::take(&mut cur));
+                }
+            }
+            if !cur.is_empty() {
+                return Err("function records without their file record".into());
+            }
+            groups.sort();
+            Ok(groups.concat())
+        }
+        "coveralls" | "coveralls+" => {
+            let mut v: Value = serde_json::from_str(&mask_timestamp(text)).map_err(|e| format!("not JSON: {}", e))?;
+            let files = v["source_files"].as_array_mut().ok_or("no source_files")?;
+            let mut ser: Vec<(String, Value)> = files.drain(..).map(|f| (serde_json::to_string(&f).unwrap(), f)).collect();
+            ser.sort_by(|a, b| a.0.cmp(&b.0));
+            *files = ser.into_iter().map(|e| e.1).collect();
+            Ok(serde_json::to_string(&v).unwrap())
+        }
+        "covdir" => Ok(text.to_string()),
+        "cobertura" => {
+            let t = mask_timestamp(text);
+            let Some(first) = t.find("<package ") else { return Ok(t) };
+            let end = t.find("</packages>").ok_or("no </packages>")?;
+            let head = &t[..first];
+            let tail = &t[end..];
+            let mut chunks: Vec<&str> = vec![];
+            let mut rest = &t[first..end];
+            while !rest.is_empty() {
+                let next = rest[1..].find("<package ").map(|i| i + 1).unwrap_or(rest.len());
+                chunks.push(&rest[..next]);
+                rest = &rest[next..];
+            }
+            chunks.sort();
+            Ok(format!("{}{}{}", head, chunks.concat(), tail))
+        }
+        _ => Err("unknown type".into()),
+    }
+}
+
 // ---- one case, evaluated ------------------------------------------------------------------------
 
 pub struct Pending {
@@ -988,10 +1104,20 @@ pub fn eval_case(rep: &mut Report, dir: &Path, c: &Case, op: &str, c16: bool) ->
                 r2.shuffle(&mut args2);
                 args2.reverse();
                 let t2 = 1 + (c.threads % 4);
-                let out2 = run_real(dir, c, &args2, t2, true);
+                let out2 = run_real_p(dir, c, &args2, t2, true, Some(fnv64(c.canonical().as_bytes()) % 100000));
                 rep.count("runall.oracle.second_run");
                 match decode(&c.ty, &out2.stdout) {
                     Ok((obs2, order2)) if out2.exit == Some(0) => {
+                        // bytes: identical up to the order of the file records (identical, when sorted)
+                        let same_bytes = match (canon(&c.ty, &out.stdout), canon(&c.ty, &out2.stdout)) {
+                            (Ok(a), Ok(b)) => a == b,
+                            _ => true, // the decoders above report an undecodable report
+                        };
+                        let same_sorted = !c.sorted || mask_timestamp(&out.stdout) == mask_timestamp(&out2.stdout);
+                        if obs2 == obs && (!same_bytes || !same_sorted) {
+                            rep.fail("oracle", None, format!("two runs on the same inputs (argument order {:?} / {:?}, --threads {} / {}) write {} reports whose bytes differ in more than the order of the file records", args, args2, c.threads, t2, c.ty),
+                                json!({"case": case, "sorted": c.sorted}));
+                        }
                         if obs2 != obs {
                             rep.fail("oracle", None, format!("two runs on the same inputs (argument order {:?} / {:?}, --threads {} / {}) decode to different {} reports", args, args2, c.threads, t2, c.ty), json!({"case": case, "first": obs, "second": obs2}));
                         } else if c.sorted && order2 != order {
